@@ -1,0 +1,33 @@
+#ifndef WENCRY_VERIF_HOOKS_H
+#define WENCRY_VERIF_HOOKS_H
+/*
+Verification hooks (see /verif/DESIGN.md 2.9). Everything in this file is
+inert unless the build defines WENCRY_VERIF: the macros then expand to nothing
+and no symbol is referenced.
+*/
+#ifdef WENCRY_VERIF
+extern "C" void wencry_verif_event(int kind, const void *p1, const void *p2, unsigned long n);
+enum wencry_verif_kind
+{
+  WV_WORKER_LOOK = 1,  /* worker n is about to read/advance the cursor of buffer p1 */
+  WV_WORKER_RELOOK,    /* worker n re-checks controller p2 and, if READY, looks at buffer p1 */
+  WV_IO_LOAD_BEGIN,    /* I/O thread starts refilling buffer p1 */
+  WV_IO_LOAD_END,
+  WV_IO_EXPORT_BEGIN,  /* I/O thread starts flushing buffer p1 */
+  WV_IO_EXPORT_END,
+  WV_GROUP             /* buffer array p1, controller array p2, n buffers */
+};
+struct wencry_verif_scope
+{
+  int kind_end;
+  const void *obj;
+  wencry_verif_scope(int kind_begin, int kind_end, const void *obj) : kind_end(kind_end), obj(obj) { wencry_verif_event(kind_begin, obj, 0, 0); }
+  ~wencry_verif_scope() { wencry_verif_event(kind_end, obj, 0, 0); }
+};
+#define WENCRY_VERIF_EV(kind, p1, p2, n) wencry_verif_event((kind), (p1), (p2), (unsigned long)(n))
+#define WENCRY_VERIF_SCOPE(kind, obj) wencry_verif_scope wencry_verif_scope_obj(kind##_BEGIN, kind##_END, (obj))
+#else
+#define WENCRY_VERIF_EV(kind, p1, p2, n)
+#define WENCRY_VERIF_SCOPE(kind, obj)
+#endif
+#endif
